@@ -203,19 +203,28 @@ def replay(ctx, path):
 
 
 MANIFEST = {
-    "level_text": ("Lean 4 proof of compiler correctness for the VirtualService -> Envoy route translation: an exact model of "
-                   "BuildHTTPRoutesForVirtualService / TranslateRoute / TranslateRouteMatch / IsCatchAllRoute / destination and redirect "
-                   "translation, a Lean rendering of Envoy's documented route semantics, and a source semantics written from the API docs; "
-                   "theorems routeMatch_correct, catchall_sound, early_stop_sound, rule_order_preserved, vs_compile_correct (for every "
-                   "VirtualService of the grammar, proxy/gateway context and request: first matching generated route = action of the first "
-                   "rule that fires), weights_preserved, buildHTTPRoutes_none_iff, plus domains_unique / sortVHost_sound / virtual-host "
-                   "selection for the sidecar domain generation. Tied to /repo on every run by structural and request-level differentials."),
-    "level_note": ("Trusted: Lean kernel + {propext, Classical.choice, Quot.sound}; the hand-written model (tied by differential testing, "
-                   "~4500 cases quick); Envoy semantics taken from documentation (Envoy.lean) and cross-checked only against an independent "
-                   "Go interpreter; regexes opaque (Go RE2 table); hook file pilot/pkg/networking/core/zz_verif_c12.go. Not modelled: "
-                   "retries/timeouts/fault/mirror/header manipulation/rewrite, JWT-claim matches, delegate merge, Gateway API conversion, "
-                   "gateway.go route merging beyond SortVHostRoutes, RDS caching. Known finding F-C12-1 (withoutHeaders pattern accepting "
-                   "the empty string)."),
-    "technique": "Lean 4 compiler-correctness theorems over an exact model of the route translation + structural and request-level differential correspondence with the real Go functions",
+    "level_text": ("Lean 4 proof of compiler correctness for the VirtualService -> Envoy route translation and of the route "
+                   "configuration built around it: an exact model of BuildHTTPRoutesForVirtualService / TranslateRoute / "
+                   "TranslateRouteMatch (incl. JWT-claim metadata matchers) / IsCatchAllRoute / destination and redirect translation, a "
+                   "Lean rendering of Envoy's documented route semantics, and source semantics written from the API docs; theorems "
+                   "routeMatch_correct, catchall_sound, early_stop_sound, rule_order_preserved, vs_compile_correct, weights_preserved, "
+                   "cluster_correct, redirect_correct; domains_unique, select_unique, sortVHost_sound, mostSpecific_perm; "
+                   "gateway_merge_correct (several VirtualServices merged on one gateway host, no side condition on the sort); and "
+                   "sidecar_rds_correct: evaluating the composed sidecar route configuration (virtual host by authority, then first "
+                   "matching route) equals the end-to-end spec (applicable VirtualService by most specific host, default route, "
+                   "passthrough) under decidable hypotheses the driver evaluates on every generated mesh. Tied to /repo on every run by "
+                   "five differential streams, two of them end to end through the real BuildHTTPRoutes (sidecars with a real XdsCache, "
+                   "gateway routers)."),
+    "level_note": ("Trusted: Lean kernel + {propext, Classical.choice, Quot.sound}; the hand-written models (tied by differential "
+                   "testing, ~18000 cases quick / 500000 thorough); Envoy semantics taken from documentation (Envoy.lean) and "
+                   "cross-checked only against an independent Go interpreter; regexes opaque (Go RE2 table); hook file "
+                   "pilot/pkg/networking/core/zz_verif_c12.go. sidecar_rds_correct assumes per-mesh certificates (generated domains = "
+                   "DNS search-path names, no name claimed twice) that are checked, not proved in general; the gateway virtual-host "
+                   "table is compared with its spec by the driver, only the route merge is proved. Not modelled: retries/timeouts/"
+                   "fault/mirror/header manipulation/rewrite, delegate merge, Gateway API conversion, listener port 0 and "
+                   "mergeAllVirtualHosts, gateway-semantics branches of the sidecar path, sniffed route names, Sidecar/exportTo "
+                   "scoping. Known findings F-C12-1 (withoutHeaders pattern accepting the empty string) and F-C12-4 (destination "
+                   "port resolved against the port-restricted registry); fixed F-C12-2, -3, -5."),
+    "technique": "Lean 4 compiler-correctness and composition theorems over exact models of the route translation and route-configuration assembly + structural, request-level and end-to-end differential correspondence with the real Go functions",
     "design_ref": "DESIGN.md section 5 C12",
 }
